@@ -108,7 +108,9 @@ def gen_cases(ctx):
     scripted = [dict(seed=int(rng.integers(0, 2**31)), fits=False, script=sc) for sc in
                 (["write", "slice", "write_ow_units", "slice", "idx"], ["write", "idx", "read", "write_ow_units", "idx", "slice", "random"],
                  ["write", "random", "write_ow_units", "random", "write_ow_units", "slice"],
-                 ["write", "write_ow_app", "read", "append", "read"], ["write", "append", "write_ow_app", "idx", "read", "write_ow_app", "read"])]
+                 ["write", "write_ow_app", "read", "append", "read"], ["write", "append", "write_ow_app", "idx", "read", "write_ow_app", "read"],
+                 # every flag combination on a file that does not exist yet creates it
+                 ["append", "read", "append", "slice", "read"], ["write_ow_app", "read", "append", "read"], ["write_ow", "read", "write", "read"])]
     return load_corpus("C12") + scripted + [dict(seed=int(rng.integers(0, 2**31)), fits=bool(k % 7 == 6)) for k in range(n_seq)]
 
 
@@ -165,6 +167,8 @@ def run_sequence(ctx, case):
             kind = ["write_ow", "read", "write_ow"][k]
         elif case.get("script"):
             kind = case["script"][k]
+            if k == 0 and os.path.exists(fn):
+                os.unlink(fn)
         else:
             kind = "write" if model is None and k == 0 else ["write", "write_ow", "append", "append_bad", "read", "slice", "idx", "random"][
                 int(rng.choice(8, p=[.06, .1, .2, .2, .12, .12, .12, .08]))]
